@@ -172,9 +172,38 @@ class DavSession:
         return ev
 
     # -- operations -----------------------------------------------------------
-    def _request(self, method, path, hdrs, body, fault=0):
+    def _external(self, method, path, hdrs, body):
+        """The request is served by ANOTHER server process on the same data directory (a second
+        worker): the long-lived server under test must see its effect like any other write."""
+        import base64
+        import json as _json
+        import subprocess
+        import sys
+        import tempfile
+        from .world import Response
+        job = {"root": self.world.root, "prefix": self.world.prefix, "principal": self.world.principal,
+               "requests": [{"method": method, "path": path, "headers": [list(h) for h in hdrs],
+                             "body": base64.b64encode(body).decode() if body is not None else None}]}
+        with tempfile.NamedTemporaryFile("w", suffix=".json", dir=os.path.dirname(self.world.root), delete=False) as f:
+            _json.dump(job, f)
+        try:
+            p = subprocess.run([sys.executable, "-m", "harness.extworker", f.name], stdout=subprocess.PIPE,
+                               stderr=subprocess.DEVNULL, timeout=120,
+                               env=dict(os.environ, PYTHONPATH="/verif:/repo"))
+            out = _json.loads(p.stdout.decode() or "[]")
+        finally:
+            os.unlink(f.name)
+        if not out:
+            raise RuntimeError("external worker gave no answer")
+        r = out[0]
+        return Response(r["status"], [tuple(h) for h in r["headers"]], base64.b64decode(r["body"]))
+
+    def _request(self, method, path, hdrs, body, fault=0, external=False):
         """One request, optionally with an injected ENOSPC at the fault-th file-system
         mutation below the data directory."""
+        if external:
+            self._fault_fired = False
+            return self._external(method, path, hdrs, body)
         if fault:
             with fsmon.FaultInjector(self.world.root, fault) as fi:
                 resp = self.world.request(method, path, hdrs, body)
@@ -183,7 +212,8 @@ class DavSession:
         self._fault_fired = False
         return self.world.request(method, path, hdrs, body)
 
-    def put(self, c, n, data, ct=None, im=None, inm=None, valid=None, re=False, fault=0, chunked=False):
+    def put(self, c, n, data, ct=None, im=None, inm=None, valid=None, re=False, fault=0, chunked=False,
+            external=False):
         ct = ct or gamma.content_type_for(n)
         kind = gamma.kind_for_ct(ct)
         b = self.body_id(data, kind, valid)
@@ -197,9 +227,9 @@ class DavSession:
             hdrs.append(("If-None-Match", inmh))
         path = self.slots[c] + "/" + n
         self.world.chunked_next = bool(chunked)     # (aiohttp front end: Transfer-Encoding: chunked)
-        resp = self._request("PUT", path, hdrs, data, fault)
+        resp = self._request("PUT", path, hdrs, data, fault, external=external)
         ev = {"op": "Put", "c": c, "n": n, "b": b, "im": imr, "inm": inmr, "re": bool(re),
-              "fault": fault if self._fault_fired else 0}
+              "fault": fault if self._fault_fired else 0, "ext": bool(external)}
         return self._record(ev, resp, {"m": "PUT", "path": path, "headers": hdrs,
                                        "body": data.decode("utf-8", "replace")})
 
@@ -218,15 +248,16 @@ class DavSession:
         return self._record(ev, resp, {"m": "POST", "path": path, "ct": ct,
                                        "body": data.decode("utf-8", "replace")})
 
-    def delete(self, c, n, im=None, fault=0):
+    def delete(self, c, n, im=None, fault=0, external=False):
         self.names[c].add(n)
         hdrs = []
         imh, imr = self.cond(im, c, n)
         if imh is not None:
             hdrs.append(("If-Match", imh))
         path = self.slots[c] + "/" + n
-        resp = self._request("DELETE", path, hdrs, None, fault)
-        ev = {"op": "Delete", "c": c, "n": n, "im": imr, "fault": fault if self._fault_fired else 0}
+        resp = self._request("DELETE", path, hdrs, None, fault, external=external)
+        ev = {"op": "Delete", "c": c, "n": n, "im": imr, "fault": fault if self._fault_fired else 0,
+              "ext": bool(external)}
         return self._record(ev, resp, {"m": "DELETE", "path": path, "headers": hdrs})
 
     def mk(self, c, kind, how="auto", props=()):
